@@ -100,6 +100,7 @@ class Module:
         self.data = []
         self.funcs = []
         self.order = []   # ('type'|'data'|'func', obj)
+        self.quoted = set()  # names that were written $"..." (assembler labels chosen by the program)
 
 
 def tokenize(text):
@@ -177,6 +178,7 @@ class Parser:
             text = text.decode('latin-1')
         self.t = tokenize(text)
         self.i = 0
+        self.quoted = set()
 
     def peek(self):
         return self.t[self.i]
@@ -210,6 +212,7 @@ class Parser:
 
     def parse(self):
         m = Module()
+        m.quoted = self.quoted
         while True:
             self.skipnl()
             k, s, line = self.peek()
@@ -313,6 +316,7 @@ class Parser:
             return s[1:]
         if k == 'qglob':
             self.next()
+            self.quoted.add(s[2:-1])
             return s[2:-1]
         self.err('expected global name')
 
